@@ -54,6 +54,9 @@ def track(chain, bys):
     """Returns {output_name: origin_bystander} for bystanders whose value no verb assigned."""
     m = {b: b for b in bys}
     for v in chain:
+        if v[0] == "put" and "-q" in v and "tee >" in v[-1]:
+            # the records leave through the tee at this point of the chain (put -q keeps them out of the main stream): later verbs never see them
+            break
         if v[0] == "rename":
             old, new = v[-1].split(",")
             old = old.strip("^$")
